@@ -40,7 +40,10 @@ struct RouterArea;
 const HOSTS_BASE: &[&str] = &["a.io", "b.a.io", "*.a.io", "*", "c.a.io", "*.io", "bc.a.io"];
 const HOSTS_RE: &[&str] = &["/b.*/.a.io", "/[bc]+/.a.io"];
 const HOSTS_MID: &[&str] = &["w./x.*/.io", "w.xy.io", "v./x.*/.io", "v./xy+/.io"];
-const HOSTS_BAD: &[&str] = &["a*.io", "/(/.a.io", "/b.a.io"];
+const HOSTS_BAD: &[&str] = &["a*.io", "/(/.a.io", "/b.a.io", "a./b", "/b/x.io", "b*"];
+/// hostnames that pass `DomainRule::from_str` (a regex is compiled from them) but that the trie
+/// cannot store: `remove` and `lookup_mut` answer "not found", a tree `add` panics (finding)
+const HOSTS_UNSTORABLE: &[&str] = &["a/", "x/b/", "w./x/y"];
 const PROBE_HOSTS: &[&str] = &[
     "a.io", "b.a.io", "c.a.io", "bc.a.io", "d.a.io", "x.b.a.io", "io", "localhost", "w.xy.io", "v.xy.io",
     "w.xz.io", "", ".io", "a..io", "*.a.io",
@@ -1280,7 +1283,14 @@ impl RouterArea {
         let mut fronts: Vec<Front> = vec![];
         let mut plan: Vec<(bool, usize)> = vec![]; // (is_add, front index)
         for i in 0..n {
-            if !fronts.is_empty() && rng.chance(3, 10) {
+            if !fronts.is_empty() && rng.chance(1, 30) {
+                // remove a tree frontend whose hostname the trie cannot even store
+                let mut f = gen_front(rng, &hosts, i, false);
+                f.host = rng.pick(HOSTS_UNSTORABLE).to_string();
+                f.pos = 2;
+                fronts.push(f);
+                plan.push((false, fronts.len() - 1));
+            } else if !fronts.is_empty() && rng.chance(3, 10) {
                 // remove something added earlier (sometimes never added / already removed)
                 let k = rng.below(fronts.len() as u64) as usize;
                 plan.push((false, k));
@@ -1507,7 +1517,7 @@ impl Area for RouterArea {
         "router"
     }
     fn rule(&self) -> String {
-        "four streams over sozu_lib::router::Router::{add_http_front,remove_http_front,lookup}: (55%) random add/remove histories of 3..11 (thorough 16) ops, hosts from {a.io,b.a.io,c.a.io,bc.a.io,*.a.io,*.io,*} (+ leftmost-regex hosts /b.*/.a.io,/[bc]+/.a.io in 1/3, + mid-regex hosts w./x.*/.io.. in 1/6 of the cases, + malformed hosts/regexes/kinds), paths PREFIX{'',/,/a,/a/b,/ab} EQUALS{/a,/ab,/,/a/b} REGEX{/a.*,^/ab?$,/a/[a-z]+}, methods {none,GET,POST}, positions pre/post/tree 1:1:8, routes ClusterId/Deny/Frontend(redirect,scheme,template,rewrite,auth), 7 probes (host,path,method) from a 15x7x2 grid after every op + the full grid before/after every op for the oracles; (30%) permutation cases: 2..6 distinct-key frontends built in 3 random orders with the same 14+ probes; (15%) pre/post cases: 3..5 distinct-key rules in one position (half of them host `*`, mostly PREFIX '' / / /a so that several match one request), removal of a non-last rule (sometimes a second one, sometimes a re-add) with a 4x3 probe grid after each step; non-trivial = at least one probe has an admissible route and at least 2 frontends configured; distinct = distinct op sequence".into()
+        "four streams, driven 60% through the bare sozu_lib::router::Router, 20% through HttpProxy::{add_http_frontend,remove_http_frontend} + HttpListener::frontend_from_request, 20% through HttpsListener::{add_https_front_with_hsts_origin,remove_https_front,frontend_from_request,update_config} (listener modes: Host values with valid/invalid ports and foreign characters, frontends for an address without listener, invalid positions, HSTS on plain HTTP); frontends also carry header edits (positions 0..3,9) and per-frontend / inherited HSTS blocks, and histories contain listener-default HSTS refreshes: (55%) random add/remove histories of 3..11 (thorough 16) ops, hosts from {a.io,b.a.io,c.a.io,bc.a.io,*.a.io,*.io,*} (+ leftmost-regex hosts /b.*/.a.io,/[bc]+/.a.io in 1/3, + mid-regex hosts w./x.*/.io.. in 1/6 of the cases, + malformed hosts/regexes/kinds), paths PREFIX{'',/,/a,/a/b,/ab} EQUALS{/a,/ab,/,/a/b} REGEX{/a.*,^/ab?$,/a/[a-z]+}, methods {none,GET,POST}, positions pre/post/tree 1:1:8, routes ClusterId/Deny/Frontend(redirect,scheme,template,rewrite,auth), 7 probes (host,path,method) from a 15x7x2 grid after every op + the full grid before/after every op for the oracles; (30%) permutation cases: 2..6 distinct-key frontends built in 3 random orders with the same 14+ probes; (15%) pre/post cases: 3..5 distinct-key rules in one position (half of them host `*`, mostly PREFIX '' / / /a so that several match one request), removal of a non-last rule (sometimes a second one, sometimes a re-add) with a 4x3 probe grid after each step; non-trivial = at least one probe has an admissible route and at least 2 frontends configured; distinct = distinct op sequence".into()
     }
     fn cases(&self, thorough: bool) -> u64 {
         if thorough {
@@ -1591,6 +1601,12 @@ impl Area for RouterArea {
                     (true, fs(2, "/[bc]+/.a.io", 0, "/a", None, "c3")),
                 ],
                 &[("b.a.io", "/a", "GET"), ("bc.a.io", "/", "GET"), ("d.a.io", "/a", "GET")],
+            ),
+            // a hostname that `DomainRule::from_str` accepts but the trie cannot store: remove is a no-op,
+            // the tree add panics the worker (open finding)
+            witness(
+                &[(false, fs(2, "x/b/", 0, "/", None, "c1")), (true, fs(0, "x/b/", 0, "/", None, "c2")), (true, fs(2, "x/b/", 0, "/", None, "c3"))],
+                &[("a.io", "/", "GET")],
             ),
             // sanity: exact > wildcard, longest prefix, pre before tree before post
             witness(
@@ -1690,9 +1706,15 @@ impl RouterArea {
             (x, show_spec(&w, none_ok))
         };
 
+        let mut dead = false;
         for (i, line) in ops.iter().enumerate() {
+            if dead && !matches!(parse_op(line), Op::New(_)) {
+                r.out.push("dead".into());
+                continue;
+            }
             match parse_op(line) {
                 Op::New(mode) => {
+                    dead = false;
                     router = Backend::new(mode);
                     s.clear();
                     hist.clear();
@@ -1713,7 +1735,20 @@ impl RouterArea {
                     }
                     let before: Vec<String> = g.iter().map(|(h, p, m)| impl_lookup(&router, h, p, m)).collect();
                     let s_before = s.clone();
-                    let out = router.add(&f).unwrap_or("bad-op");
+                    let out = match std::panic::catch_unwind(std::panic::AssertUnwindSafe(|| router.add(&f))) {
+                        Ok(o) => o.unwrap_or("bad-op"),
+                        Err(_) => {
+                            // `TrieNode::insert` asserts the insert did not fail: a hostname that parses
+                            // as a regex domain but is not a storable trie key kills the worker
+                            fails.insert((
+                                "tree-insert-panic-unstorable-regex-host".into(),
+                                format!("add of tree frontend with hostname {:?} panics (pattern_trie insert: assert_ne!(.., Failed))", f.host),
+                            ));
+                            r.out.push("panic".into());
+                            dead = true;
+                            continue;
+                        }
+                    };
                     r.tags.push(format!("add:{out}"));
                     r.tags.push(format!("add-pos:{}", f.pos));
                     r.tags.push(format!("add-kind:{}", f.kind));
